@@ -1,10 +1,382 @@
 /-
-  Model module `Sort` (driver op `sort`). Import-free apart from RsjModel.* modules.
+  Model of the sorting / set functions of
+  `rsjsonnet-lang/src/program/eval/stdlib.rs`:
+  `do_std_sort*`, `do_std_uniq*`, `do_std_set*`, `do_std_set_inter/union/diff_aux`,
+  `do_std_set_member*`, `do_std_min_array*`, `do_std_max_array*` (driver op `sort`).
+
+  Conventions
+  * An array element is any `α`; `key : α → κ` is the (already evaluated, cached)
+    result of `keyF`.  In the Rust code `sorted : Vec<Cell<usize>>` holds indices into
+    the original array and `keys[idx]` is the cached key; an element of the model
+    stands for such an index together with its key (theorems instantiate `α := Nat`
+    with the slice `List.range n`; the driver uses pairs `(index, key)`).
+  * `KeyOrd.cmp` is the `Ordering` that `State::CompareValue` pushes on
+    `cmp_ord_stack`; `KeyOrd.eqv` is the `bool` that `State::EqualsValue` pushes on
+    `bool_stack` (std.uniq / std.set use equality, everything else the comparison).
+  * A slice `sorted[range]` is the list of its contents; writing a slice back is
+    returning the new list.
+  * State-machine loops are structural recursion on an explicit `fuel` (out of fuel
+    = `Err.fuel`, proved unreachable for the fuel the entry points pass, for every
+    threshold ≥ 1; with threshold 0 the Rust code itself does not terminate on a
+    one-element slice).  `assert!`s, slice-index panics and `usize` underflow are
+    explicit `Err` outcomes (proved unreachable in RsjProofs/Sort*.lean).
+  * The merge/quick threshold (`if len > 30` in `do_std_sort_slice`) is the
+    parameter `thr`.
 -/
 import RsjModel.Util
 namespace Rsj.Sort
 
-/-- `sort <args...>` : one canonical answer line, or `none` for a malformed request. -/
-def handle (_args : List String) : Option String := none
+/-- What the evaluator knows about keys: `CompareValue` and `EqualsValue`. -/
+structure KeyOrd (κ : Type) where
+  cmp : κ → κ → Ordering
+  eqv : κ → κ → Bool
+
+inductive Err where
+  | fuel        -- modelling artefact: recursion budget exhausted (= divergence)
+  | assert      -- `assert!((range.end - range.start) > 1)` in quick sort
+  | oob         -- slice index out of bounds
+  | underflow   -- `usize` subtraction below zero
+deriving Repr, DecidableEq
+
+section
+variable {α κ : Type} (O : KeyOrd κ) (key : α → κ)
+
+/-- `cmp_ord.is_le()` of comparing `key x` with `key y` (merge step). -/
+def leB (x y : α) : Bool := (O.cmp (key x) (key y)).isLE
+
+/-- `item_ord.is_lt()` of comparing `key x` with `key y` (quick partition). -/
+def ltB (x y : α) : Bool := (O.cmp (key x) (key y)).isLT
+
+/-! ### std.sort -/
+
+/-- `do_std_sort_quick_sort_1` + `do_std_sort_quick_sort_2` on the slice `l`:
+    pivot = first element; every other element is compared with the pivot
+    (`StdSortCompare { lhs: item, rhs: pivot }`); `items_lt` (is_lt) and `items_ge`
+    keep slice order; the slice becomes `items_lt ++ [pivot] ++ items_ge`; each part
+    longer than one element is quick-sorted again. -/
+def quick : Nat → List α → Except Err (List α)
+  | 0, _ => .error .fuel
+  | fuel + 1, l =>
+    match l with
+    | [] => .error .assert
+    | [_] => .error .assert
+    | pivot :: rest =>
+      let itemsLt := rest.filter (fun item => ltB O key item pivot)
+      let itemsGe := rest.filter (fun item => !ltB O key item pivot)
+      match (if itemsLt.length > 1 then quick fuel itemsLt else .ok itemsLt) with
+      | .error e => .error e
+      | .ok lt' =>
+        match (if itemsGe.length > 1 then quick fuel itemsGe else .ok itemsGe) with
+        | .error e => .error e
+        | .ok ge' => .ok (lt' ++ pivot :: ge')
+
+/-- `do_std_sort_slice` (+ `merge_prepare` / `merge_pre_compare` / `merge_post_compare`):
+    a slice longer than `thr` is split at `mid = start + len / 2`, both halves are
+    sorted, and merged taking the left element when `cmp_ord.is_le()`
+    (`List.merge` is exactly that loop, including the two copy-the-rest exits);
+    a shorter slice of more than one element is quick-sorted. -/
+def sortSlice (thr : Nat) : Nat → List α → Except Err (List α)
+  | 0, _ => .error .fuel
+  | fuel + 1, l =>
+    let len := l.length
+    if len > thr then
+      let mid := len / 2
+      match sortSlice thr fuel (l.take mid) with
+      | .error e => .error e
+      | .ok left =>
+        match sortSlice thr fuel (l.drop mid) with
+        | .error e => .error e
+        | .ok right => .ok (List.merge left right (leB O key))
+    else if len > 1 then quick O key len l
+    else .ok l
+
+/-- `do_std_sort` … `do_std_sort_finish`. -/
+def sort (thr : Nat) (arr : List α) : Except Err (List α) :=
+  if arr.length ≤ 1 then .ok arr
+  else sortSlice O key thr (arr.length + 1) arr
+
+/-! ### std.uniq -/
+
+/-- `StdUniqCompareItem` / `StdUniqDupValue` / `StdUniqCheckItem`: the value stack
+    keeps the key of the *previous item*; the item is pushed unless `EqualsValue`
+    says the two keys are equal. -/
+def uniqLoop (prevKey : κ) : List α → List α
+  | [] => []
+  | item :: rest =>
+    if O.eqv prevKey (key item) then uniqLoop (key item) rest
+    else item :: uniqLoop (key item) rest
+
+/-- `do_std_uniq` -/
+def uniq (arr : List α) : List α :=
+  match arr with
+  | [] => []
+  | [x] => [x]
+  | x :: rest => x :: uniqLoop O key (key x) rest
+
+/-! ### std.set -/
+
+/-- `do_std_set_uniq_compare_item` / `_check_item` for `index, index+1, …`
+    (`todo` iterations): compares the cached keys of `sorted[index - 1]` and
+    `sorted[index]`. -/
+def setUniqLoop (sorted : List α) : Nat → Nat → List α → Except Err (List α)
+  | 0, _, acc => .ok acc
+  | todo + 1, index, acc =>
+    match sorted[index - 1]?, sorted[index]? with
+    | some p, some c =>
+      setUniqLoop sorted todo (index + 1)
+        (if O.eqv (key p) (key c) then acc else acc ++ [c])
+    | _, _ => .error .oob
+
+/-- `do_std_set` + `do_std_set_uniq`: sort (same `StdSortSlice`), then walk
+    `index = 1 .. orig_array.len()` over `sorted`. -/
+def set (thr : Nat) (arr : List α) : Except Err (List α) :=
+  if arr.length ≤ 1 then .ok arr
+  else
+    match sortSlice O key thr (arr.length + 1) arr with
+    | .error e => .error e
+    | .ok sorted =>
+      match sorted[0]? with
+      | none => .error .oob
+      | some first => setUniqLoop O key sorted (arr.length - 1) 1 [first]
+
+/-! ### std.setInter / setUnion / setDiff : two-index walks -/
+
+/-- `do_std_set_inter_aux` (entered with `a[i]`, `b[j]` in range; compares
+    `keyF(a[i])` with `keyF(b[j])`). -/
+def interAux (a b : List α) : Nat → Nat → Nat → List α → Except Err (List α)
+  | 0, _, _, _ => .error .fuel
+  | fuel + 1, i, j, acc =>
+    match a[i]?, b[j]? with
+    | some x, some y =>
+      match O.cmp (key x) (key y) with
+      | .lt =>
+        if i + 1 = a.length ∨ j = b.length then .ok acc
+        else interAux a b fuel (i + 1) j acc
+      | .eq =>
+        if i + 1 = a.length ∨ j + 1 = b.length then .ok (acc ++ [x])
+        else interAux a b fuel (i + 1) (j + 1) (acc ++ [x])
+      | .gt =>
+        if i = a.length ∨ j + 1 = b.length then .ok acc
+        else interAux a b fuel i (j + 1) acc
+    | _, _ => .error .oob
+
+/-- `do_std_set_inter` -/
+def setInter (a b : List α) : Except Err (List α) :=
+  if a.isEmpty ∨ b.isEmpty then .ok []
+  else interAux O key a b (a.length + b.length) 0 0 []
+
+/-- `do_std_set_union_aux` -/
+def unionAux (a b : List α) : Nat → Nat → Nat → List α → Except Err (List α)
+  | 0, _, _, _ => .error .fuel
+  | fuel + 1, i, j, acc =>
+    match a[i]?, b[j]? with
+    | some x, some y =>
+      match O.cmp (key x) (key y) with
+      | .lt =>
+        if i + 1 = a.length then .ok (acc ++ [x] ++ b.drop j)
+        else if j = b.length then .ok (acc ++ [x] ++ a.drop (i + 1))
+        else unionAux a b fuel (i + 1) j (acc ++ [x])
+      | .eq =>
+        if i + 1 = a.length then .ok (acc ++ [x] ++ b.drop (j + 1))
+        else if j + 1 = b.length then .ok (acc ++ [x] ++ a.drop (i + 1))
+        else unionAux a b fuel (i + 1) (j + 1) (acc ++ [x])
+      | .gt =>
+        if i = a.length then .ok (acc ++ [y] ++ b.drop (j + 1))
+        else if j + 1 = b.length then .ok (acc ++ [y] ++ a.drop i)
+        else unionAux a b fuel i (j + 1) (acc ++ [y])
+    | _, _ => .error .oob
+
+/-- `do_std_set_union` -/
+def setUnion (a b : List α) : Except Err (List α) :=
+  if a.isEmpty then .ok b
+  else if b.isEmpty then .ok a
+  else unionAux O key a b (a.length + b.length) 0 0 []
+
+/-- `do_std_set_diff_aux` -/
+def diffAux (a b : List α) : Nat → Nat → Nat → List α → Except Err (List α)
+  | 0, _, _, _ => .error .fuel
+  | fuel + 1, i, j, acc =>
+    match a[i]?, b[j]? with
+    | some x, some y =>
+      match O.cmp (key x) (key y) with
+      | .lt =>
+        if i + 1 = a.length then .ok (acc ++ [x])
+        else if j = b.length then .ok (acc ++ [x] ++ a.drop (i + 1))
+        else diffAux a b fuel (i + 1) j (acc ++ [x])
+      | .eq =>
+        if i + 1 = a.length then .ok acc
+        else if j + 1 = b.length then .ok (acc ++ a.drop (i + 1))
+        else diffAux a b fuel (i + 1) (j + 1) acc
+      | .gt =>
+        if i = a.length then .ok acc
+        else if j + 1 = b.length then .ok (acc ++ a.drop i)
+        else diffAux a b fuel i (j + 1) acc
+    | _, _ => .error .oob
+
+/-- `do_std_set_diff` -/
+def setDiff (a b : List α) : Except Err (List α) :=
+  if a.isEmpty ∨ b.isEmpty then .ok a
+  else diffAux O key a b (a.length + b.length) 0 0 []
+
+/-! ### std.setMember : binary search on `start ..= end` -/
+
+/-- `do_std_set_member_slice` + `do_std_set_member_check`; `kx = keyF(x)` stays on the
+    value stack and is the left operand of the comparison. -/
+def memberSlice (arr : List α) (kx : κ) : Nat → Nat → Nat → Except Err Bool
+  | 0, _, _ => .error .fuel
+  | fuel + 1, start, stop =>
+    if stop < start then .error .underflow          -- `end - start`
+    else
+      let mid := start + (stop - start) / 2
+      match arr[mid]? with
+      | none => .error .oob
+      | some m =>
+        match O.cmp kx (key m) with
+        | .eq => .ok true
+        | .lt =>
+          if mid = start then .ok false
+          else if mid = 0 then .error .underflow    -- `mid - 1`
+          else memberSlice arr kx fuel start (mid - 1)
+        | .gt =>
+          if mid = stop then .ok false
+          else memberSlice arr kx fuel (mid + 1) stop
+
+/-- `do_std_set_member` -/
+def setMember (x : α) (arr : List α) : Except Err Bool :=
+  if arr.isEmpty then .ok false
+  else memberSlice O key arr (key x) (arr.length + 1) 0 (arr.length - 1)
+
+/-! ### std.minArray / std.maxArray -/
+
+/-- `do_std_min_array_compare_item` / `_check_item`: the value stack keeps the key
+    of `array[max_index]` (`best`); it is compared with the key of
+    `array[cur_index]`; `is_gt` moves `max_index`.  `todo = array.len() - cur_index`
+    iterations remain (the loop ends when `cur_index + 1 == array.len()`). -/
+def minLoop (arr : List α) : Nat → Nat → Nat → κ → Except Err α
+  | 0, _, maxIndex, _ =>
+    match arr[maxIndex]? with
+    | some x => .ok x
+    | none => .error .oob
+  | todo + 1, cur, maxIndex, best =>
+    match arr[cur]? with
+    | none => .error .oob
+    | some item =>
+      if (O.cmp best (key item)).isGT then minLoop arr todo (cur + 1) cur (key item)
+      else minLoop arr todo (cur + 1) maxIndex best
+
+/-- `do_std_min_array`; `none` = the `onEmpty` thunk is evaluated. -/
+def minArray (arr : List α) : Except Err (Option α) :=
+  match arr with
+  | [] => .ok none
+  | [x] => .ok (some x)
+  | x0 :: _ :: _ =>
+    match minLoop O key arr (arr.length - 1) 1 0 (key x0) with
+    | .ok r => .ok (some r)
+    | .error e => .error e
+
+/-- `do_std_max_array_compare_item` / `_check_item`: `is_lt` moves `max_index`. -/
+def maxLoop (arr : List α) : Nat → Nat → Nat → κ → Except Err α
+  | 0, _, maxIndex, _ =>
+    match arr[maxIndex]? with
+    | some x => .ok x
+    | none => .error .oob
+  | todo + 1, cur, maxIndex, best =>
+    match arr[cur]? with
+    | none => .error .oob
+    | some item =>
+      if (O.cmp best (key item)).isLT then maxLoop arr todo (cur + 1) cur (key item)
+      else maxLoop arr todo (cur + 1) maxIndex best
+
+/-- `do_std_max_array` -/
+def maxArray (arr : List α) : Except Err (Option α) :=
+  match arr with
+  | [] => .ok none
+  | [x] => .ok (some x)
+  | x0 :: _ :: _ =>
+    match maxLoop O key arr (arr.length - 1) 1 0 (key x0) with
+    | .ok r => .ok (some r)
+    | .error e => .error e
+
+end
+
+/-! ### Driver: integer keys, elements are `(tag, key)` pairs -/
+
+/-- Numbers under `partial_cmp` / `==` (no NaN reaches a Jsonnet value). -/
+def intOrd : KeyOrd Int := { cmp := fun a b => compare a b, eqv := fun a b => a == b }
+
+def showErr : Err → String
+  | .fuel => "Efuel" | .assert => "Eassert" | .oob => "Eoob" | .underflow => "Eunderflow"
+
+/-- `[k0,k1,..]` becomes `[(base+0,k0),(base+1,k1),..]`. -/
+def tagFrom (base : Nat) : List Int → List (Nat × Int)
+  | [] => []
+  | k :: ks => (base, k) :: tagFrom (base + 1) ks
+
+def showIdx (r : Except Err (List (Nat × Int))) : String :=
+  match r with
+  | .ok l => showNatList (l.map Prod.fst)
+  | .error e => showErr e
+
+/-- Elements of `a` print as `a<i>`, elements of `b` (tagged from `la`) as `b<j>`. -/
+def showAB (la : Nat) (r : Except Err (List (Nat × Int))) : String :=
+  match r with
+  | .ok l =>
+    if l.isEmpty then "-"
+    else ",".intercalate (l.map (fun p =>
+      if p.1 < la then "a" ++ toString p.1 else "b" ++ toString (p.1 - la)))
+  | .error e => showErr e
+
+def showOpt (r : Except Err (Option (Nat × Int))) : String :=
+  match r with
+  | .ok none => "empty"
+  | .ok (some p) => toString p.1
+  | .error e => showErr e
+
+def showBool (r : Except Err Bool) : String :=
+  match r with
+  | .ok true => "true"
+  | .ok false => "false"
+  | .error e => showErr e
+
+/-- `sort sort <thr> <keys>` | `sort uniq <keys>` | `sort set <thr> <keys>` |
+    `sort union|inter|diff <keysA> <keysB>` | `sort member <x> <keys>` |
+    `sort min|max <keys>`; keys are comma separated integers, `-` = empty. -/
+def handle (args : List String) : Option String :=
+  let k : (Nat × Int) → Int := Prod.snd
+  match args with
+  | ["sort", thr, ks] => do
+    let thr ← thr.toNat?
+    let ks ← parseIntList ks
+    pure (showIdx (sort intOrd k thr (tagFrom 0 ks)))
+  | ["uniq", ks] => do
+    let ks ← parseIntList ks
+    pure (showIdx (.ok (uniq intOrd k (tagFrom 0 ks))))
+  | ["set", thr, ks] => do
+    let thr ← thr.toNat?
+    let ks ← parseIntList ks
+    pure (showIdx (set intOrd k thr (tagFrom 0 ks)))
+  | ["union", ka, kb] => do
+    let ka ← parseIntList ka
+    let kb ← parseIntList kb
+    pure (showAB ka.length (setUnion intOrd k (tagFrom 0 ka) (tagFrom ka.length kb)))
+  | ["inter", ka, kb] => do
+    let ka ← parseIntList ka
+    let kb ← parseIntList kb
+    pure (showAB ka.length (setInter intOrd k (tagFrom 0 ka) (tagFrom ka.length kb)))
+  | ["diff", ka, kb] => do
+    let ka ← parseIntList ka
+    let kb ← parseIntList kb
+    pure (showAB ka.length (setDiff intOrd k (tagFrom 0 ka) (tagFrom ka.length kb)))
+  | ["member", x, ks] => do
+    let x ← x.toInt?
+    let ks ← parseIntList ks
+    pure (showBool (setMember intOrd k (0, x) (tagFrom 0 ks)))
+  | ["min", ks] => do
+    let ks ← parseIntList ks
+    pure (showOpt (minArray intOrd k (tagFrom 0 ks)))
+  | ["max", ks] => do
+    let ks ← parseIntList ks
+    pure (showOpt (maxArray intOrd k (tagFrom 0 ks)))
+  | _ => none
 
 end Rsj.Sort
